@@ -1,12 +1,13 @@
 #!/usr/bin/env python3
 """Configure (once) and build the harness runner against the instrumented pika build tree."""
 import os, subprocess, sys
-B = os.environ.get("VERIF_BUILD", "/verif/build")
+V = os.environ.get("VERIF_ROOT", os.path.dirname(os.path.dirname(os.path.abspath(__file__))))
+B = os.environ.get("VERIF_BUILD", V + "/build")
 H = B + "/harness"
 SIM = ("-fsanitize=thread -mllvm -tsan-instrument-func-entry-exit=0 "
        "-mllvm -tsan-instrument-memintrinsics=0 -mllvm -tsan-handle-cxx-exceptions=0")
 import hashlib, shutil
-stamp = hashlib.sha1((SIM + open("/verif/harness/CMakeLists.txt").read()).encode()).hexdigest()
+stamp = hashlib.sha1((SIM + open(V + "/harness/CMakeLists.txt").read()).encode()).hexdigest()
 try:
     old = open(H + "/flags.stamp").read()
 except OSError:
@@ -16,7 +17,7 @@ if old != stamp and os.path.isdir(H):
 os.makedirs(H, exist_ok=True)
 open(H + "/flags.stamp", "w").write(stamp)
 if not os.path.exists(H + "/build.ninja"):
-    r = subprocess.call(["cmake", "-G", "Ninja", "-S", "/verif/harness", "-B", H,
+    r = subprocess.call(["cmake", "-G", "Ninja", "-S", V + "/harness", "-B", H,
         "-DCMAKE_CXX_COMPILER=clang++-14", "-DCMAKE_BUILD_TYPE=Release",
         "-Dpika_DIR=" + B + "/pika-sim/lib/cmake/pika",
         "-Dfmt_DIR=/usr/lib/x86_64-linux-gnu/cmake/fmt",
